@@ -40,7 +40,7 @@ NAMES = ["A[0,0]", "A[0,1]", "A[1,0]", "A[1,1]", "x[0]", "x[1]", "x[2]", "x[3]",
 XV = ["vvar", "x"]
 SAFE_FUNCS = [f for f in FUNCS]
 TERM_KINDS = (["var", "scaled", "prod", "pow2", "pow3", "param", "vsum", "dot", "lincomb", "norm2", "norm1", "quad", "vpowsum",
-               "vunsum", "msum", "sqshift", "yvar", "lincomb-rev", "vsum-rev", "quad-rev", "divconst", "param2", "powparam", "powvar", "const"] + ["fn:" + f for f in SAFE_FUNCS])
+               "vunsum", "msum", "sqshift", "yvar", "lincomb-rev", "vsum-rev", "quad-rev", "divconst", "param2", "powparam", "powvar", "const", "vexprsum", "vexprsum2"] + ["fn:" + f for f in SAFE_FUNCS])
 AFFINE_KINDS = ["var", "scaled", "yvar", "lincomb", "lincomb-rev", "vsum", "vsum-rev", "divconst"]
 XR = ["slice", ["vvar", "x"], None, None, -1]
 
@@ -80,6 +80,11 @@ def term(kind, i, for_mul, scale):
         r = ["bin", "**", ["bin", "+", xi, _c(2.0)], ["var", "y"]]
     elif kind == "vsum":
         r = ["vsum", XV]
+    elif kind == "vexprsum":
+        # VectorExpression([x_i, x_j, number]).sum(): a reduction whose elements are bare variables / numbers
+        r = ["vsum", ["vexpr", [xi, xj, _c(0.75)]]]
+    elif kind == "vexprsum2":
+        r = ["vsum", ["vexpr", [xj, ["bin", "*", _c(2.0), xi], xi]]]
     elif kind == "dot":
         r = ["dot", XV, ["slice", XV, None, None, -1], "dot"]
     elif kind == "lincomb":
